@@ -201,6 +201,17 @@ pub fn stages(args: &Args, mode: Mode, allow_orient: bool) -> Vec<Stage> {
         prog: po(6, 128 * 128),
         n: args.n(400, 8000),
     });
+    // absolute history length: hundreds / tens of thousands of calls of one kind on one display
+    // (counters that wrap), every call checked
+    if !sm {
+        v.push(Stage {
+            name: "long-history",
+            mode,
+            cfg: CfgOpts { external: true, l1: true, l2: true, max_l2_area: 36 },
+            prog: po(4, 144),
+            n: args.n(24, 400),
+        });
+    }
     // Display::release() and a second display (often another model / colour depth of the same
     // framebuffer size) built on the same interface object, then more drawing
     v.push(Stage {
@@ -291,7 +302,18 @@ pub fn run_draw(args: &Args, prop: &'static str, mode: Mode, allow_orient: bool,
                 rebuild_case(args, prop, &st, idx, &mut rng, cfg, po, want, a);
                 return;
             }
-            let prog = gen::gen_program(&mut rng, &cfg, &po);
+            let prog = if st.name == "long-history" {
+                // a small window anywhere in the framebuffer (so that offsets matter)
+                let (fw, fh) = cfg.model.fb();
+                let (w, h, ox, oy) = gen::gen_window(&mut rng, fw, fh, if cfg.tr.is_l2() { 36 } else { 144 });
+                cfg.w = w;
+                cfg.h = h;
+                cfg.ox = ox;
+                cfg.oy = oy;
+                long_history_program(&mut rng, &cfg, &po, allow_orient, idx)
+            } else {
+                gen::gen_program(&mut rng, &cfg, &po)
+            };
             let prog = fix_clear_budget(prog, &cfg, &po);
             note_cfg(a, &cfg);
             note_prog(a, &cfg, &prog);
@@ -349,7 +371,7 @@ pub fn run_draw(args: &Args, prop: &'static str, mode: Mode, allow_orient: bool,
     total
 }
 
-fn clone_po(p: &ProgOpts) -> ProgOpts {
+pub fn clone_po(p: &ProgOpts) -> ProgOpts {
     ProgOpts {
         mode: p.mode,
         max_calls: p.max_calls,
@@ -508,10 +530,14 @@ fn rebuild_case(args: &Args, _prop: &str, st: &Stage, idx: u64, rng: &mut Rng, m
         let a8 = (rng.next() as u32 & 0xFC).max(4);
         let b8 = rng.next() as u32 & 0xFC;
         let c565 = a8 << 8 | b8;
-        let c666 = (a8 >> 2) << 6 | (b8 >> 2); // r = 0
+        // 18 bpp wire bytes [0, a, b] or [a, b, 0]
+        let c666 = if rng.bool() { (a8 >> 2) << 6 | (b8 >> 2) } else { (a8 >> 2) << 12 | (b8 >> 2) << 6 };
         let tag = |bits: u8| if bits == 16 { c565 } else { c666 };
-        prog1.push(Op::FillSolid { rect: crate::ops::Rect { x: 0, y: 0, w: 1, h: 1 }, c: tag(cfg.model.bits()) });
-        prog2.insert(0, Op::FillSolid { rect: crate::ops::Rect { x: 0, y: 0, w: 1, h: 1 }, c: tag(cfg2.model.bits()) });
+        // (a few pixels each: with one pixel the shorter form is a prefix of the longer one)
+        let w1 = rng.range(1, 6) as u32;
+        let w2 = rng.range(1, 6) as u32;
+        prog1.push(Op::FillSolid { rect: crate::ops::Rect { x: 0, y: 0, w: w1, h: 1 }, c: tag(cfg.model.bits()) });
+        prog2.insert(0, Op::FillSolid { rect: crate::ops::Rect { x: 0, y: 0, w: w2, h: 1 }, c: tag(cfg2.model.bits()) });
     }
     let cj = || J::obj().with("config", cfg.to_json()).with("program", gen::prog_json(&prog1)).with("rebuilt_as", cfg2.to_json()).with("program_after_rebuild", gen::prog_json(&prog2));
     a.seen("rebuild_pairs", format!("{}->{}", cfg.model.name(), cfg2.model.name()));
@@ -590,4 +616,55 @@ fn rebuild_case(args: &Args, _prop: &str, st: &Stage, idx: u64, rng: &mut Rng, m
     if idx < 2 {
         a.sample(cj().with("stage", "rebuild"));
     }
+}
+
+
+/// A program whose interesting property is its *length*: N calls of one kind (N around 256,
+/// 512 or 65536), then ordinary drawing.
+fn long_history_program(rng: &mut Rng, cfg: &DispCfg, po: &ProgOpts, allow_orient: bool, idx: u64) -> Vec<Op> {
+    let mut prog: Vec<Op> = Vec::new();
+    let mut ori = cfg.ori;
+    let lsize = |o: crate::spec::Ori| if o.rot() & 1 == 0 { (cfg.w as i64, cfg.h as i64) } else { (cfg.h as i64, cfg.w as i64) };
+    // the very long runs only at the Interface level (one event per call there)
+    let long = !cfg.tr.is_l2() && idx % 3 == 0;
+    let n = if long { *rng.pick(&[65_536usize, 65_537]) } else { *rng.pick(&[255usize, 256, 257, 511, 512, 513]) };
+    let mut tags = gen::TagGen::new(rng);
+    let kind = if allow_orient { rng.below(3) } else { 1 + rng.below(2) };
+    // something drawn first, so that a cached window / fill exists
+    let (lw, lh) = lsize(ori);
+    let c0 = tags.one();
+    prog.push(Op::FillSolid { rect: crate::ops::Rect { x: 0, y: 0, w: lw as u32, h: lh as u32 }, c: c0 });
+    match kind {
+        0 => {
+            // N orientation changes in a row, no drawing in between
+            for i in 0..n {
+                ori = crate::spec::Ori(((ori.0 as usize + 1 + (i % 3)) % 8) as u8);
+                prog.push(Op::SetOrientation(ori));
+            }
+        }
+        1 => {
+            // N full-frame fills
+            for _ in 0..n {
+                prog.push(Op::Clear { c: tags.one() });
+            }
+        }
+        _ => {
+            // N pixel-stream calls between two fills of the same colour
+            let n = n.min(1030);
+            for i in 0..n {
+                prog.push(Op::SetPixels { sx: 0, sy: 0, ex: 0, ey: 0, colors: crate::ops::Stream::Seq { start: tags.one() + i as u32, step: 1, len: Some(1) } });
+            }
+        }
+    }
+    // the same fill again (identical window and colour), then ordinary calls
+    let (lw, lh) = lsize(ori);
+    prog.push(Op::FillSolid { rect: crate::ops::Rect { x: 0, y: 0, w: lw as u32, h: lh as u32 }, c: c0 });
+    let mut c2 = cfg.clone();
+    c2.ori = ori;
+    let mut po2 = clone_po(po);
+    po2.allow_orient = false;
+    po2.allow_misc = false;
+    po2.max_calls = 4;
+    prog.extend(gen::gen_program(rng, &c2, &po2));
+    prog
 }
